@@ -356,6 +356,20 @@ def scenarios(run, drv, scratch):
     else:
         run.oracle_ok("scenario")
 
+    # (b2) KNOWN FINDING: views report the lock of their source and memoise, but nothing resets what they memoised when the *source* is unlocked,
+    #      modified and locked again (the mechanism of `derived_lock_stale_counterexample`: a cache consulted on an object without a lock flag of its own)
+    from tensordict import set_lazy_legacy
+    src = TensorDict({"a": torch.zeros(2, 3), "n": TensorDict({"x": torch.zeros(2, 3)}, [2, 3])}, [2, 3]).lock_()
+    with set_lazy_legacy(True):
+        view = src.permute(1, 0)
+    sub = src._get_sub_tensordict(0)
+    view.flatten_keys(); sub.flatten_keys()
+    src.unlock_(); src["new"] = torch.zeros(2, 3); src.lock_()
+    check("scenario", "td.lock_(); v = td.permute(1, 0) (legacy lazy view); v.flatten_keys(); td.unlock_(); td['new'] = …; td.lock_(); v.flatten_keys()",
+          "view-cache:_PermutedTensorDict", lambda: view.flatten_keys())
+    check("scenario", "td.lock_(); s = td._get_sub_tensordict(0); s.flatten_keys(); td.unlock_(); td['new'] = …; td.lock_(); s.flatten_keys()",
+          "view-cache:_SubTensorDict", lambda: sub.flatten_keys())
+
     # (h2) KNOWN FINDING: flatten_keys of a locked TensorDict that holds a lazy stack memoises *stacked copies* of the members' leaves
     root = TensorDict({"l": LazyStackedTensorDict(*members(None), stack_dim=0), "z": torch.zeros(2, 3)}, [2, 3]).lock_()
     root.flatten_keys()
